@@ -222,8 +222,11 @@ class MakeUpdate:
                 and t == fw_type
                 and v == fw_ver
                 and (t, v) in self.firmware
-                and self.firmware[t, v]["data"] == fw_bin + ff(128 - len(fw_bin) % 128)
-                and self.firmware[t, v]["blocks"] * 16 == len(fw_bin) + (128 - len(fw_bin) % 128)
+                and self.firmware[t, v]["data"] == fw_bin + ff(len(self.firmware[t, v]["data"]) - len(fw_bin))
+                and len(self.firmware[t, v]["data"]) % 128 == 0
+                and 0 <= len(self.firmware[t, v]["data"]) - len(fw_bin)
+                and len(self.firmware[t, v]["data"]) - len(fw_bin) <= 128
+                and self.firmware[t, v]["blocks"] * 16 == len(self.firmware[t, v]["data"])
             )
             or (
                 not (fw_bin is not None and valid_id(fw_type, fw_ver) and t == fw_type and v == fw_ver)
